@@ -222,3 +222,31 @@ VEC_REMOVERS = {'retain', 'retain_mut', 'truncate', 'pop', 'dedup', 'dedup_by', 
 ITER_DROPPERS = {'filter', 'filter_map', 'take', 'skip', 'take_while', 'skip_while', 'step_by', 'find', 'find_map', 'nth', 'last'}
 VEC_REORDER = {'sort', 'sort_by', 'sort_by_key', 'sort_unstable', 'sort_unstable_by', 'sort_unstable_by_key', 'reverse', 'swap',
                'rotate_left', 'rotate_right', 'swap_remove', 'select_nth_unstable', 'par_sort_by'}
+
+
+_TAILS = {}
+
+
+def solver_tail(ctx, b, five):
+    """(findings, tail) of the symbolic analysis of an internal solver's tail (sa/solvertail.py), once per body and tree;
+    findings is None when the solver cannot be interpreted."""
+    from . import solvertail
+    key = (id(ctx.prog), b.path)
+    if key not in _TAILS:
+        t = solvertail.Tail(ctx.prog, b, five)
+        try:
+            f = t.analyse()
+        except Exception as e:          # the fallback must never take the check down with it
+            f = None
+            t.error = 'internal: %s: %s' % (type(e).__name__, e)
+        _TAILS[key] = (f, t)
+    return _TAILS[key]
+
+
+def tail_verdict(ctx, b, five, kinds):
+    """(ok, message) from the symbolic tail analysis for the finding kinds given, or None when it is not available"""
+    f, t = solver_tail(ctx, b, five)
+    if f is None:
+        return None
+    hit = [m for k, m in f if k in kinds]
+    return (not hit, hit[0] if hit else 'by symbolic interpretation of the solver (%d scenarios)' % getattr(t, 'n_scenarios', 0))
